@@ -3,13 +3,15 @@ C13 — Expression typing: well-typed modules are accepted, ill-typed ones rejec
 error pointing into the offending definition, never a crash.
 
 Property theorems only.  Model: Emboss/Model/Types.lean (type_check.py, attribute_util.py as
-coded).  Spec: Emboss/Spec/Types.lean (`HasType false` = language reference; `HasType true` =
-reference + the coded enum-ordering rule), Emboss/Lemmas/TypesMod.lean (`PositionsOk`).
+coded, after the round-1 `fix:` commits).  Spec: Emboss/Spec/Types.lean (`HasType false` =
+language reference; `HasType true` = reference + the coded enum-ordering rule),
+Emboss/Lemmas/TypesMod.lean (`PositionsOk`, `AttrOk`).
 -/
 import Emboss.Lemmas.TypesIff
 import Emboss.Lemmas.TypesLoc
-import Emboss.Lemmas.TypesCrash
+import Emboss.Lemmas.TypesSub
 import Emboss.Lemmas.TypesMod
+import Emboss.Lemmas.TypesNat
 namespace Emboss.Types
 
 private def L (n : Nat) : Loc := ⟨n, false⟩
@@ -17,23 +19,27 @@ private def L (n : Nat) : Loc := ⟨n, false⟩
 /-! ### Expression level -/
 
 /- FULL STATEMENT (false on the current tree, see `C13_enum_ordering_counterexample`):
-     theorem C13_typecheck_iff (e τ) : Ok (tc e) τ ↔ HasType false e τ
+     theorem C13_typecheck_iff (file e τ) : Ok (tc file e) τ ↔ HasType false e τ
    Proved: the same equivalence with the ordering rule as coded (`HasType true` = documented
    rules + "ordering on two values of one enum"). -/
-/-- The checker accepts `e` with type `τ` (no error, no crash) exactly when `e` has type `τ`
-under the documented rules plus the coded enum-ordering rule. -/
-theorem C13_typecheck_iff_partial (e : Expr) (τ : Ty) : Ok (tc e) τ ↔ HasType true e τ :=
-  tc_iff e τ
+/-- The checker accepts `e` (written in any module `file`) with type `τ` — reports nothing —
+exactly when `e` has type `τ` under the documented rules plus the coded enum-ordering rule.
+Two enums are the same type only if they are the same definition (module file and path). -/
+theorem C13_typecheck_iff_partial (file : FileId) (e : Expr) (τ : Ty) :
+    Ok (tc file e) τ ↔ HasType true e τ :=
+  tc_iff e file τ
 
 /-- non-vacuity: `$max(x, 3) + (b ? 1 : 2)` with `x : UInt`, `b : Flag` is accepted as integer;
-`x + b` is not accepted at any type. -/
+`x + b` is not accepted at any type; nor is `ea == eb` for values of two different enums. -/
 example :
-    Ok (tc (.bin (L 1) .add (.fn (L 2) .max [.lphys (L 3) .int, .num (L 4)])
+    Ok (tc 0 (.bin (L 1) .add (.fn (L 2) .max [.lphys (L 3) .int, .num (L 4)])
           (.choice (L 5) (.lphys (L 6) .bool) (.num (L 7)) (.num (L 8))))) .int ∧
-    ¬ ∃ τ, Ok (tc (.bin (L 1) .add (.lphys (L 2) .int) (.lphys (L 3) .bool))) τ := by
-  constructor
-  · decide
+    (¬ ∃ τ, Ok (tc 0 (.bin (L 1) .add (.lphys (L 2) .int) (.lphys (L 3) .bool))) τ) ∧
+    (¬ ∃ τ, Ok (tc 0 (.bin (L 1) .eq (.lphys (L 2) (.enum 0)) (.enumv (L 3) 1))) τ) := by
+  refine ⟨by decide, ?_, ?_⟩
   · rintro ⟨τ, h⟩; revert h; simp [Ok, tc, Res.pure, argErr, BinOp.isCmp, BinOp.mono, DTy.toTy]
+  · rintro ⟨τ, h⟩; revert h
+    simp [Ok, tc, Res.pure, BinOp.isCmp, cmpAcceptable, BinOp.isEquality, Ty.isValue, DTy.toTy]
 
 theorem hasType_mono {e : Expr} {τ : Ty} (h : HasType false e τ) : HasType true e τ := by
   induction h with
@@ -42,6 +48,7 @@ theorem hasType_mono {e : Expr} {τ : Ty} (h : HasType false e τ) : HasType tru
   | enumv => exact .enumv
   | lparam => exact .lparam
   | lphys => exact .lphys
+  | lparamArr => exact .lparamArr
   | lvirt _ ih => exact .lvirt ih
   | cvirt _ ih => exact .cvirt ih
   | builtinB => exact .builtinB
@@ -58,8 +65,9 @@ theorem hasType_mono {e : Expr} {τ : Ty} (h : HasType false e τ) : HasType tru
   | lower _ ih => exact .lower ih
 
 /-- Every expression that is well-typed by the *documented* rules is accepted, with that type. -/
-theorem C13_documented_accepted (e : Expr) (τ : Ty) (h : HasType false e τ) : Ok (tc e) τ :=
-  (tc_iff e τ).2 (hasType_mono h)
+theorem C13_documented_accepted (file : FileId) (e : Expr) (τ : Ty) (h : HasType false e τ) :
+    Ok (tc file e) τ :=
+  (tc_iff e file τ).2 (hasType_mono h)
 
 example : HasType false (.bin (L 1) .lt (.num (L 2)) (.lphys (L 3) .int)) .bool :=
   .order (.inl rfl) .num .lphys
@@ -69,7 +77,7 @@ theorem hasType_false_ord_enum {l op a b n τ} (ho : op.isOrd) (ha : HasType fal
   intro h
   have hfun : ∀ {e τ1 τ2}, HasType true e τ1 → HasType true e τ2 → τ1 = τ2 := by
     intro e τ1 τ2 h1 h2
-    exact ((tc_iff e τ1).2 h1).2.2.symm.trans ((tc_iff e τ2).2 h2).2.2
+    exact ((tc_iff e 0 τ1).2 h1).2.symm.trans ((tc_iff e 0 τ2).2 h2).2
   cases h with
   | arith ho' => rcases ho with rfl | rfl | rfl | rfl <;> rcases ho' with h | h | h <;> cases h
   | logic ho' => rcases ho with rfl | rfl | rfl | rfl <;> rcases ho' with h | h <;> cases h
@@ -81,104 +89,249 @@ theorem hasType_false_ord_enum {l op a b n τ} (ho : op.isOrd) (ha : HasType fal
 reference restricts `<` to integers.  Replayed on the real compiler by the check
 (findings.d/C13.json, key enum-operands-to-ordering-comparison-accepted). -/
 theorem C13_enum_ordering_counterexample :
-    Ok (tc (.bin (L 1) .lt (.enumv (L 2) 0) (.lphys (L 3) (.enum 0)))) .bool ∧
+    Ok (tc 0 (.bin (L 1) .lt (.enumv (L 2) 0) (.lphys (L 3) (.enum 0)))) .bool ∧
     ¬ HasType false (.bin (L 1) .lt (.enumv (L 2) 0) (.lphys (L 3) (.enum 0))) .bool :=
   ⟨by decide, hasType_false_ord_enum (.inl rfl) .enumv⟩
 
-/- FULL STATEMENT (false on the current tree): `∀ e, (tc e).crash = none`. -/
-/-- The checker raises only on the listed forms: a static reference to something that is
-neither an enum value nor a field, a reference to an array-typed parameter, or a comparison /
-`?:` one of whose operands failed its own check (`.type is None`). -/
-theorem C13_total_partial (e : Expr) (k : Crash) (h : (tc e).crash = some k) : CrashForm e :=
-  tc_crash e k h
+/-- An expression the checker leaves without a type has been reported: "no type" never
+travels silently to a later pass. -/
+theorem C13_untyped_is_reported (file : FileId) (e : Expr) (h : (tc file e).ty = .none) :
+    (tc file e).errs ≠ [] :=
+  tc_none_err e file h
 
-/-- non-vacuity / witnesses replayed on the real compiler (all four are open findings):
-`Foo.p`; `p + 1` with `p: UInt:8[2]`; `(true < 1) == true`; `true ? false : (true < 1)`. -/
-theorem C13_total_counterexample :
-    (tc (.cother (L 1))).crash = some .constRefOther ∧
-    (tc (.bin (L 1) .add (.lparamArr (L 2)) (.num (L 3)))).crash = some .arrayParamRef ∧
-    (tc (.bin (L 1) .eq (.bin (L 2) .lt (.boolc (L 3)) (.num (L 4))) (.boolc (L 5)))).crash = some .cmpNone ∧
-    (tc (.choice (L 1) (.boolc (L 2)) (.boolc (L 3)) (.bin (L 4) .lt (.boolc (L 5)) (.num (L 6))))).crash
-      = some .compatNone := by decide
+example : (tc 0 (.bin (L 1) .lt (.boolc (L 2)) (.num (L 3)))).ty = .none := by decide
 
-/-- Every error names the offending sub-expression: its location is that of the expression
-or of one of its sub-expressions (through references to `let` fields, whose definition the
-error then lies in). -/
-theorem C13_error_located (e : Expr) (er : Err) (h : er ∈ (tc e).errs) : LocIn er.l e :=
-  tc_loc e er h
+/-- Whatever is reported for a part of an expression — a syntactic sub-expression, or the
+definition of a virtual field it refers to, each checked under the file it is written in —
+is reported for the expression itself. -/
+theorem C13_subexpression_errors_reported (file : FileId) (e : Expr) (p : FExpr)
+    (hp : p ∈ parts file e) (er : Err) (h : er ∈ (tc p.1 p.2).errs) : er ∈ (tc file e).errs :=
+  parts_errs e file p hp er h
 
-example : (tc (.bin (L 1) .add (.num (L 2)) (.boolc (L 3)))).errs = [⟨L 3, .mustInt 1, [], false⟩] := by
+/-- The parts of an accepted expression are accepted, each with a proper type. -/
+theorem C13_subexpression_accepted (file : FileId) (e : Expr) (τ : Ty) (h : Ok (tc file e) τ)
+    (p : FExpr) (hp : p ∈ parts file e) : ∃ σ, σ ≠ .none ∧ Ok (tc p.1 p.2) σ := by
+  have he : (tc p.1 p.2).errs = [] := by
+    cases hl : (tc p.1 p.2).errs with
+    | nil => rfl
+    | cons er rest =>
+      have := parts_errs e file p hp er (by simp [hl])
+      rw [h.1] at this; cases this
+  exact ⟨_, fun hn => tc_none_err p.2 p.1 hn he, he, rfl⟩
+
+/-- non-vacuity: the boolean condition of an accepted integer `?:` is among its parts -/
+example : ((0 : FileId), Expr.lphys (L 2) .bool) ∈
+    parts 0 (.choice (L 1) (.lphys (L 2) .bool) (.num (L 3)) (.num (L 4))) := by simp [parts]
+
+/-- Every error names the offending construct and the file it is written in: its location is
+that of the expression or of one of its sub-expressions, reported under the expression's
+own file name — or, through a reference to a `let` field, a location inside that field's
+definition, reported under the file name of the module that defines it. -/
+theorem C13_error_located (file : FileId) (e : Expr) (er : Err) (h : er ∈ (tc file e).errs) :
+    LocIn er.l er.file file e :=
+  tc_loc e file er h
+
+/-- non-vacuity: `1 + true` in file 0; `other.bad + 1` in file 0 where `bad = true < 1` is
+defined in file 7: the first error lies in file 7, the second in file 0. -/
+example : (tc 0 (.bin (L 1) .add (.num (L 2)) (.boolc (L 3)))).errs = [⟨L 3, 0, .mustInt 1, []⟩] ∧
+    (tc 0 (.bin (L 1) .add (.lvirt (L 2) 7 (.bin (L 3) .lt (.boolc (L 4)) (.num (L 5)))) (.num (L 6)))).errs
+      = [⟨L 4, 7, .cmpArg 0, []⟩, ⟨L 2, 0, .mustInt 0, []⟩] := by
   decide
-
-/-- FINDING (open): an error re-reported through a reference to an ill-typed `let` field does
-not carry a file name (`bad`): `let a = true < 1` referenced as `a + 1`. -/
-theorem C13_error_file_counterexample :
-    ∃ er ∈ (tc (.bin (L 1) .add (.lvirt (L 2) (.bin (L 3) .lt (.boolc (L 4)) (.num (L 5)))) (.num (L 6)))).errs,
-      er.bad = true := by decide
 
 /-! ### Module level: `check_types` -/
 
-/- FULL STATEMENT (false on the current tree): with `PositionsOkDoc` requiring only the array
-   *length* to be an integer, enum values to be integers, and passed enum parameters to be of
-   the declared enum.  Proved for the positional relation as coded (`PositionsOk`); the three
-   differences are the counterexamples below. -/
-/-- Given that `annotate_types` accepted the inspected expressions, `check_types` reports
-nothing and does not raise exactly when every position holds an expression of the demanded
-type. -/
+private def exMod : Module :=
+  { exprs := [(0, .num (L 2)), (0, .lparam (L 3) .int), (0, .num (L 4)), (0, .boolc (L 5)),
+              (0, .num (L 9)), (0, .num (L 10))],
+    params := [⟨0, L 1, .atomic .int⟩], locations := [(0, .num (L 2), .lparam (L 3) .int)],
+    arrays := [(0, .num (L 4))], conds := [(0, .boolc (L 5))], enumValues := [(0, .num (L 10))],
+    passed := [⟨0, L 6, 0, L 7, [(.int, L 8)], [.num (L 9)]⟩], attrs := [] }
+
+/- FULL STATEMENT (false on the current tree): with `PositionsOk false` (documented typing
+   inside the expressions, enum values integers only).  Proved for `PositionsOk true`; the
+   differences are F11 (above) and `C13_enum_value_counterexample`. -/
+/-- Given that `annotate_types` accepted the inspected expressions (the pipeline runs
+`check_types` only then), `check_types` reports nothing and does not raise exactly when every
+position holds an expression of the demanded type: integer starts, sizes and array lengths,
+boolean conditions, numeric enum values, integer-or-enum parameters, and arguments of exactly
+the declared parameter type (for enums: the very same enum). -/
 theorem C13_check_iff_positions_ok_partial (m : Module) (ht : ∀ e ∈ inspected m, Typed e) :
-    ((checkTypes m).errs = [] ∧ (checkTypes m).crash = none) ↔ PositionsOk m :=
+    ((checkTypes m).errs = [] ∧ (checkTypes m).crash = none) ↔ PositionsOk true m :=
   checkTypes_ok m ht
 
-private def exMod : Module :=
-  { exprs := [], params := [⟨L 1, .atomic .int⟩], locations := [(.num (L 2), .lparam (L 3) .int)],
-    arrays := [.num (L 4)], conds := [.boolc (L 5)],
-    passed := [⟨L 6, L 7, [(.int, L 8)], [.num (L 9)]⟩], enumValues := [], attrs := [] }
 example : (∀ e ∈ inspected exMod, Typed e) ∧ (checkTypes exMod).errs = [] := by decide
-example : (checkTypes { exMod with conds := [.num (L 5)] }).errs = [⟨L 5, .posExist, [], false⟩] := by decide
+example : (checkTypes { exMod with conds := [(0, .num (L 5))] }).errs = [⟨L 5, 0, .posExist, []⟩] := by decide
 
-private def exLen : Expr :=
-  .choice (L 1) (.bin (L 2) .eq (.lphys (L 3) .int) (.num (L 4))) (.num (L 5)) (.num (L 6))
+/-- the repaired behaviours (formerly counterexamples): an integer array length with a boolean
+sub-expression is accepted; a boolean enum value, an argument of another enum and a boolean
+argument for an integer parameter are reported. -/
+example :
+    (checkTypes { exMod with arrays := [(0, .choice (L 1) (.bin (L 2) .eq (.lphys (L 3) .int) (.num (L 4)))
+        (.num (L 5)) (.num (L 6)))] }).errs = [] ∧
+    (checkTypes { exMod with enumValues := [(0, .boolc (L 9))] }).errs = [⟨L 9, 0, .posEnumValue, []⟩] ∧
+    (checkTypes { exMod with passed := [⟨0, L 6, 3, L 7, [(.enum 0, L 8)], [.enumv (L 9) 1]⟩] }).errs
+      = [⟨L 9, 0, .passKind 0, [(3, L 8)]⟩] ∧
+    (checkTypes { exMod with passed := [⟨0, L 6, 3, L 7, [(.int, L 8)], [.boolc (L 9)]⟩] }).errs
+      = [⟨L 9, 0, .passKind 0, [(3, L 8)]⟩] := by decide
 
-/-- FINDING (open): a well-typed integer array length with a boolean sub-expression
-(`UInt:8[a == 1 ? 1 : 2]`) is rejected: 'Array size must be an integer.' at `a == 1`. -/
-theorem C13_array_length_counterexample :
-    Ok (tc exLen) .int ∧
-    (checkTypes { exMod with arrays := [exLen] }).errs = [⟨L 2, .posArray, [], false⟩] := by decide
-
-/-- FINDING (open): enum values are not inspected: `AA = true` passes all three modelled passes. -/
+/-- FINDING (open, pinned by expression_bounds_test): an enum value given by an expression of
+enum type (`BB = Foo.AA`) is accepted although enum values are documented as integers. -/
 theorem C13_enum_value_counterexample :
-    run { exMod with exprs := [.boolc (L 9)], enumValues := [.boolc (L 9)] } = .accepted := by decide
-
-/-- FINDING (open): a value of enum 1 passed for a parameter of enum 0 is accepted; a boolean
-passed for an integer parameter raises instead of being reported. -/
-theorem C13_passed_parameter_counterexample :
-    (checkTypes { exMod with passed := [⟨L 6, L 7, [(.enum 0, L 8)], [.enumv (L 9) 1]⟩] }).errs = [] ∧
-    (checkTypes { exMod with passed := [⟨L 6, L 7, [(.int, L 8)], [.boolc (L 9)]⟩] }).crash
-      = some .passedTypeName := by decide
+    (checkTypes { exMod with enumValues := [(0, .enumv (L 9) 1)] }).errs = [] ∧
+    ¬ PositionsOk false { exMod with enumValues := [(0, .enumv (L 9) 1)] } := by
+  refine ⟨by decide, fun h => ?_⟩
+  rcases h.enumValues (0, .enumv (L 9) 1) (by simp) with h' | ⟨h', _⟩
+  · cases h'
+  · cases h'
 
 /-! ### Attribute values -/
 
-/-- `[requires]`/`[static_requirements]` accept exactly boolean expressions; integer-constant
-attributes exactly closed integer expressions; string attributes exactly listed strings. -/
-theorem C13_attr_value_ok (a : Attr) (hk : a.kind = .bool ∨ a.kind = .intConst ∨ a.kind = .strList) :
-    ((attrOne a).errs = [] ∧ (attrOne a).crash = none) ↔
-      match a.kind, a.val with
-      | .bool, .expr e => (tc e).ty = .bool
-      | .intConst, .expr e => (tc e).ty = .int ∧ closed e = true
-      | .strList, .str v => v = true
-      | _, _ => False := by
-  rcases a with ⟨l, k, v⟩
-  rcases hk with h | h | h <;> simp only at h <;> subst h <;> cases v <;> simp [attrOne] <;> grind
+/-- Given that `annotate_types` accepted the value, an attribute validator is silent exactly
+when the value is what the attribute's kind demands: `[requires]`/`[static_requirements]` a
+boolean expression; `[is_signed]`/`[is_integer]` a constant (closed) boolean expression;
+`[addressable_unit_size]`/`[maximum_bits]`/`[fixed_size_in_bits]` a constant (closed) integer
+expression; `[byte_order]`/`[text_output]` a listed string; `[expected_back_ends]` a
+well-formed list.  A value of any other kind (string for expression, expression for string)
+is reported, never raised on. -/
+theorem C13_attr_value_ok (a : Attr) (ht : ∀ e, a.val = .expr e → Typed (a.file, e)) :
+    ((attrOne a).errs = [] ∧ (attrOne a).crash = none) ↔ AttrOk a :=
+  attrOne_ok a ht
 
-example : (attrOne ⟨L 1, .bool, .expr (.num (L 2))⟩).errs = [⟨L 1, .attrBool, [], false⟩] := by decide
+example : (attrOne ⟨0, L 1, .bool, false, .expr (.num (L 2))⟩).errs = [⟨L 1, 0, .attrBool, []⟩] ∧
+    (attrOne ⟨0, L 1, .boolConst, true, .expr (.num (L 2))⟩).errs = [⟨L 1, 0, .attrConstBool, []⟩] ∧
+    (attrOne ⟨0, L 1, .backEnds, false, .expr (.num (L 2))⟩).errs = [⟨L 1, 0, .attrString, []⟩] ∧
+    (attrOne ⟨0, L 1, .intConst, false, .expr (.bin (L 2) .add (.num (L 3)) (.num (L 4)))⟩).errs = [] := by
+  decide
 
-/-- FINDINGS (open): `[is_signed: 1]` and `[expected_back_ends: 5]` raise; `[is_signed: 1 == 1]`
-is accepted by the validator and raises later. -/
-theorem C13_attr_crash_counterexample :
-    (attrOne ⟨L 1, .boolConstSigned, .expr (.num (L 2))⟩).crash = some .attrConstBoolExpr ∧
-    (attrOne ⟨L 1, .backEnds, .expr (.num (L 2))⟩).crash = some .attrBackEnds ∧
-    run { exMod with attrs := [⟨L 1, .boolConstSigned, .expr (.bin (L 2) .eq (.num (L 3)) (.num (L 4)))⟩] }
-      = .crashed .attrSignedNotLiteral := by decide
+/-- Attribute constancy: an accepted value of a constant-demanding attribute (`[is_signed]`,
+`[is_integer]`, `[addressable_unit_size]`, `[maximum_bits]`, `[fixed_size_in_bits]`) mentions
+no field, parameter or builtin — not in any sub-expression, nor inside the definition of any
+`let` field it refers to, in whatever module. -/
+theorem C13_constant_attr_mentions_no_field (a : Attr) (e : Expr)
+    (ht : Typed (a.file, e)) (hv : a.val = .expr e) (hk : a.kind = .boolConst ∨ a.kind = .intConst)
+    (hok : (attrOne a).errs = [] ∧ (attrOne a).crash = none) :
+    ∀ p ∈ parts a.file e, (∀ l t, p.2 ≠ .lphys l t) ∧ (∀ l t, p.2 ≠ .lparam l t) ∧
+      (∀ l, p.2 ≠ .lparamArr l) ∧ (∀ l b, p.2 ≠ .builtin l b) := by
+  have h := (attrOne_ok a (fun e' he' => by rw [hv] at he'; cases he'; exact ht)).1 hok
+  have hc : closed e = true := by
+    unfold AttrOk at h
+    rcases hk with hk | hk <;> rw [hk, hv] at h <;> exact h.2
+  intro p hp
+  exact closed_not_ref (parts_closed e a.file hc p hp)
+
+/-- non-vacuity: `[fixed_size_in_bits: 8 + 8]` is accepted; `[fixed_size_in_bits: x]` and
+`[is_integer: $is_statically_sized]` are reported as not constant. -/
+example :
+    (attrOne ⟨0, L 1, .intConst, false, .expr (.bin (L 2) .add (.num (L 3)) (.num (L 4)))⟩).errs = [] ∧
+    (attrOne ⟨0, L 1, .intConst, false, .expr (.lphys (L 2) .int)⟩).errs = [⟨L 1, 0, .attrConst, []⟩] ∧
+    (attrOne ⟨0, L 1, .boolConst, false, .expr (.builtin (L 2) .isStaticallySized)⟩).errs
+      = [⟨L 1, 0, .attrConstBool, []⟩] := by decide
+
+/-! ### The pipeline (`annotate_types`, `check_types`, attribute validators) -/
+
+/-- what the three passes demand of a module, as coded -/
+structure ModuleOk (m : Module) : Prop where
+  exprs : ∀ e ∈ m.exprs, ∃ τ, HasType true e.2 τ
+  noArrayParam : ∀ p ∈ m.params, p.pty ≠ .array
+  positions : PositionsOk true m
+  attrs : ∀ a ∈ m.attrs, AttrOk a
+  signedLiteral : attrLate m.attrs = none
+
+/- FULL STATEMENT: the same with `HasType false` / `PositionsOk false` and without
+   `signedLiteral`; false because of the three open findings (F11, enum-typed enum values,
+   non-literal `[is_signed]`). -/
+/-- A module is accepted by the three modelled passes iff all its expressions are well-typed,
+no parameter is an array, every position holds the demanded type and every attribute value
+the demanded kind (+ as coded: `[is_signed]` is a literal). -/
+theorem C13_module_accepted_iff_partial (m : Module) (wf : m.wf) :
+    run m = .accepted ↔ ModuleOk m := by
+  rw [run_accepted]
+  constructor
+  · rintro ⟨ha, hc, ht, hl⟩
+    have ⟨hte, hpa⟩ := (annotate_nil m).1 ha
+    have hti : ∀ e ∈ inspected m, Typed e := fun e he => hte e (wf e (by simp [he]))
+    have hta : ∀ e ∈ attrExprs m.attrs, Typed e := fun e he => hte e (wf e (by simp [he]))
+    exact ⟨fun e he => ⟨_, typed_hasType (hte e he)⟩, hpa, (checkTypes_ok m hti).1 hc,
+      (attrAll_ok m.attrs hta).1 ht, hl⟩
+  · intro h
+    have hte : ∀ e ∈ m.exprs, Typed e := fun e he => by
+      obtain ⟨τ, hτ⟩ := h.exprs e he
+      exact ((tc_iff e.2 e.1 τ).2 hτ).1
+    have hti : ∀ e ∈ inspected m, Typed e := fun e he => hte e (wf e (by simp [he]))
+    have hta : ∀ e ∈ attrExprs m.attrs, Typed e := fun e he => hte e (wf e (by simp [he]))
+    exact ⟨(annotate_nil m).2 ⟨hte, h.noArrayParam⟩, (checkTypes_ok m hti).2 h.positions,
+      (attrAll_ok m.attrs hta).2 h.attrs, h.signedLiteral⟩
+
+example : exMod.wf ∧ run exMod = .accepted := by
+  refine ⟨?_, by decide⟩
+  simp [Module.wf, inspected, attrExprs, exMod]
+
+/- FULL STATEMENT (false on the current tree): `∀ m, m.wf → ∀ k, run m ≠ .crashed k`. -/
+/-- The three passes raise only (a) the open `[is_signed: <non-literal>]` finding, or (b) in one
+of the three places that still read `.type.which_type` unguarded — and then `annotate_types`
+has reported errors before, every one of them at a synthetic location (which glue.py itself
+calls a compiler bug; for user-written constructs the errors are visible and the pipeline
+stops before the raising pass). -/
+theorem C13_total_partial (m : Module) (wf : m.wf) (k : Crash) (h : run m = .crashed k) :
+    k = .attrSignedNotLiteral ∨ (annotate m ≠ [] ∧ ∀ er ∈ annotate m, er.hidden = true) :=
+  run_crashed m wf k h
+
+/-- For a user-written module (no synthetic location in its expressions and parameter
+declarations) every error of `annotate_types` is visible, the pipeline stops there, and the
+unguarded reads are never reached: the only exception that can escape is the open
+`[is_signed: <non-literal>]` finding. -/
+theorem C13_total_natural_partial (m : Module) (wf : m.wf) (hn : m.natural) (k : Crash)
+    (h : run m = .crashed k) : k = .attrSignedNotLiteral :=
+  run_crashed_natural m wf hn k h
+
+/-- … and with literal `[is_signed]` attributes (what `attrLate` asks) none does: the full
+totality statement for the modelled passes, on user-written input. -/
+theorem C13_total_natural (m : Module) (wf : m.wf) (hn : m.natural) (hl : attrLate m.attrs = none)
+    (k : Crash) : run m ≠ .crashed k :=
+  run_total_natural m wf hn hl k
+
+/-- non-vacuity: the example module is well-formed, user-written, has no `[is_signed]`; so is its
+ill-typed variant (`if 5:`), which is rejected in pass 2 -/
+example : exMod.wf ∧ exMod.natural ∧ attrLate exMod.attrs = none ∧
+    run { exMod with conds := [(0, .num (L 5))], exprs := exMod.exprs ++ [(0, .num (L 5))] }
+      = .rejected 2 [⟨L 5, 0, .posExist, []⟩] := by
+  refine ⟨?_, ?_, by decide, by decide⟩
+  · simp [Module.wf, inspected, attrExprs, exMod]
+  · simp [Module.natural, exMod, natural, L]
+
+/-- FINDING (open): `[is_signed: 1 == 1]` is accepted by the validator and raises later
+("Duplicate attribute"); and the array-parameter read is reachable when the location is
+synthetic (model only: user-written parameters never are). -/
+theorem C13_total_counterexample :
+    run { exMod with
+      exprs := exMod.exprs ++ [(0, .bin (L 12) .eq (.num (L 13)) (.num (L 14)))],
+      attrs := [⟨0, L 11, .boolConst, true, .expr (.bin (L 12) .eq (.num (L 13)) (.num (L 14)))⟩] }
+      = .crashed .attrSignedNotLiteral ∧
+    run { exMod with params := [⟨0, ⟨1, true⟩, .array⟩] } = .crashed .paramTypeNone := by decide
+
+/-- The formerly raising inputs are now reported (pass 1, visible): `Foo.p` for a parameter,
+an array parameter used in arithmetic, `(true < 1) == true`, `$next` in a `[requires]`. -/
+example :
+    (tc 0 (.cother (L 1))).errs = [⟨L 1, 0, .staticOther, []⟩] ∧
+    (tc 0 (.bin (L 1) .add (.lparamArr (L 2)) (.num (L 3)))).errs = [⟨L 2, 0, .mustInt 0, []⟩] ∧
+    (tc 0 (.bin (L 1) .eq (.bin (L 2) .lt (.boolc (L 3)) (.num (L 4))) (.boolc (L 5)))).errs
+      = [⟨L 3, 0, .cmpArg 0, []⟩, ⟨L 2, 0, .cmpArg 0, []⟩] ∧
+    (tc 0 (.bin (L 1) .eq (.builtin (L 2) .other) (.num (L 3)))).errs
+      = [⟨L 2, 0, .builtinCtx, []⟩, ⟨L 2, 0, .cmpArg 0, []⟩] := by decide
+
+/-- Whatever any of the three passes reports lies — location *and* file name — at one of the
+module's own items: inside a top-level expression (through a reference: inside the referred
+definition, under the file name of the module that holds it), at a parameter declaration, at
+an inspected expression (start, size, array length, condition, enum value, passed argument), at
+a parameterised type use, or at an attribute value. -/
+theorem C13_module_errors_located (m : Module) (er : Err)
+    (h : er ∈ annotate m ∨ er ∈ (checkTypes m).errs ∨ er ∈ (attrAll m.attrs).errs) : ErrAt m er := by
+  rcases h with h | h | h
+  · exact annotate_at m er h
+  · exact checkTypes_at m er h
+  · exact attrAll_at m m.attrs (fun _ ha => ha) er h
+
+example : (checkTypes { exMod with conds := [(3, .num (L 5))] }).errs = [⟨L 5, 3, .posExist, []⟩] := by decide
 
 /-- The pipeline model never reports a hidden (synthetic) error when a pass has visible ones:
 what `run` reports for passes 1–3 is non-synthetic. -/
@@ -188,8 +341,6 @@ theorem C13_reported_errors_visible (m : Module) (p : Nat) (es : List Err) (hp :
   simp only at h
   have vis : ∀ (l : List Err), ∀ er ∈ l.filter (fun x => !x.hidden), er.hidden = false := by
     intro l er her; simp only [List.mem_filter] at her; simpa using her.2
-  split at h
-  · cases h
   split at h
   · injection h with h1 h2; subst h2; exact vis _
   split at h
